@@ -6,6 +6,8 @@ import IbModel.Props.C05
 import IbModel.Model.Closures
 import IbModel.Proofs.ProgramBuilt
 import IbModel.Proofs.Terminals
+import IbModel.Proofs.JoinX
+import IbModel.Proofs.LiftPair
 /-!
 # C01 — sequential and parallel execution return the same result
 
@@ -637,5 +639,39 @@ example : runParFrom (customSource [.int 1, .int 2, .int 3] .none .none) [.combi
 example : runParFrom (customSource [.int 1, .int 2, .int 3] (.fixed 9) (.empties 1)) [.combineGlobally .count (some 0)] 5
     = .ok [.int 3] := by rfl
 example : SplitPol.lawful (.empties 1) = true ∧ SplitPol.lawful (.minus 3) = true ∧ SplitPol.lawful (.dropLast 2) = false := by decide
+
+/-! ## Programs with joins whose right side is not a fresh collection (request kind `PIPEJ`, `Model/ProgramJoinX.lean`)
+
+The right side on another `Pipeline`, a self-join, shared-prefix sides, a sibling second join: the driver answers
+with `runSeqX` / `runParX`. Their lineage is the lineage of the program with fresh right sides (`desugar`,
+`applyXSteps_eq_fresh`), so C01 transfers. -/
+
+theorem C01_programX (src : List Val) (xs : List XStep)
+    (h : (stepsSupported (desugar src xs) || stepsNested (desugar src xs) || stepsRightNested (desugar src xs)) = true)
+    (n : Nat) : runParX src xs n = runSeqX src xs := by
+  have e : litChainX src xs = litChain src (desugar src xs) := by
+    have h := applyXSteps_eq_fresh src xs []
+    simpa [litChainX, desugar, litChain, applySteps_nil] using h
+  have := C01_program_all src (desugar src xs) h n
+  unfold runPar runSeq at this
+  unfold runParX runSeqX
+  rw [e]; exact this
+
+/-- non-vacuity: a self-join behind a barrier, and shared-prefix sides that both contain barriers, are covered -/
+example : stepsSupported (desugar [.int 1] [.plain (.combineValues .sum), .joinShared .full [] [], .plain (.combineValues .count)])
+    = true := by decide
+example : stepsSupported (desugar [] [.plain .gbk, .joinShared .left [.gsum] [.combineValuesLifted .count]]) = true := by decide
+example : stepsNested (desugar [] [.joinOther .inner [] [], .joinShared .inner [] []]) = true := by decide
+
+/-! ## `distinct_per_key` where the planner does NOT run (a join side is executed unplanned): the literal window
+`group_by_key → combine_values_lifted(DistinctSet)` on ANY partition list returns the partition the planned classic
+combine returns (`distinct_per_key_composed_par`, Props/C05) -/
+theorem distinct_per_key_unplanned_eq_planned (c : VCombiner) (R : Val → Val → Prop) (hc : LawfulCombiner c R)
+    (ps : List (List Val)) :
+    (do let a ← stepSubPar ps gbkNode
+        stepSubPar a (combineValuesLiftedNode c)) = stepSubPar ps (combineValuesNode c) := by
+  simp only [gbkNode, combineValuesLiftedNode, combineValuesNode, stepSubPar, pure_bind, Option.getD_some,
+    Option.getD_none, List.map_cons, List.map_nil]
+  rw [gbk_contract ps, lift_pair_core hc, ← combineValues_contract hc ps]
 
 end IB
